@@ -200,11 +200,27 @@ fn slice_compzst(a: &Args, t: &mut Trace) {
             continue;
         }
         let mut r = rng_for(a.seed, stream + 19_000_000);
-        let which = 1 + (i % 3) as u32;
+        let which = 1 + (i % 4) as u32;
         let len = r.range(a.len / 4 + 1, a.len) as usize;
         let mut vg = gen::ValGen(1000);
         let id = format!("compzst-s{}-i{}", a.seed, i);
         match which {
+            4 => {
+                let (w, prot, prob) = (r.range(1, 3), r.range(1, 3), r.range(1, 3));
+                let samples = *r.pick(&[1u64, 2, 3, 5, 8, 16, 64, 300]);
+                let fpi = r.below(FPS.len() as u64) as usize;
+                let khmode = r.below(3);
+                let hmode = r.below(5);
+                let mut kg = gen::KeyGen::new(w + prot + prob + 4);
+                let ops: &[i128] = <zst::ZWTiny as zst::ZComp>::OPS;
+                let meta = format!("zst=1 w={} prot={} prob={} samples={} fpi={} kh={} hasher={}", w, prot, prob, samples, fpi, khmode, hmode);
+                run_case(t, &id, 4, &[], &meta,
+                    &|| Box::new(zst::ZCompSubj::new(zst::mk_zwtiny(w as usize, prot as usize, prob as usize, samples as usize, FPS[fpi], khmode, hmode))),
+                    &mut |step, snap| if step >= len { None } else {
+                        let op = gen::wtiny_op(&mut r, &mut kg, &mut vg, snap);
+                        Some(if ops.contains(&op[0]) { op } else { vec![0, r.below(w + prot + prob + 4) as i128, vg.next()] })
+                    }, &tag);
+            }
             1 => {
                 let (pc, fc) = (r.range(1, 4), r.range(1, 4));
                 let mut kg = gen::KeyGen::new(pc + fc + 3);
@@ -1123,6 +1139,8 @@ pub fn mk_subject(kind: u32, cfg: &[i128], meta: &std::collections::HashMap<Stri
             mk_twoq(size, rr, gr, m("hasher"))
         }
         3 => mk_arc(cfg[0] as usize, m("hasher")),
+        4 if m("zst") == 1 => Box::new(zst::ZCompSubj::new(zst::mk_zwtiny(m("w") as usize, m("prot") as usize, m("prob") as usize,
+            m("samples") as usize, FPS[m("fpi") as usize], m("kh"), m("hasher")))),
         4 => Box::new(lfu::mk_wtiny(m("w") as usize, m("prot") as usize, m("prob") as usize, m("samples") as usize,
             FPS[m("fpi") as usize], m("kh"), m("hasher"))),
         5 => Box::new(lfu::mk_tiny(m("size") as usize, m("samples") as usize, FPS[m("fpi") as usize])),
